@@ -34,8 +34,9 @@ func IntProps(propContainer map[string]object.PanObject) map[string]object.PanOb
 					res = -1
 				}
 
-				// NOTE: Int's descendants also call this
-				return object.NewInheritedInt(args[0].Proto(), res)
+				// NOTE: Int's descendants also call this; the result is always a plain int
+				// (Comparable compares it with the literals -1, 0 and 1)
+				return object.NewPanInt(res)
 			},
 		),
 		// NOTE: this cannot be removed (Comparable uses Int#== internally)
